@@ -165,10 +165,30 @@ def counted_while_to_for(b):
             cond_ok = c.get("k") == "bin" and c["op"] == "Lt" and c["l"].get("k") == "path" and c["l"].get("res") == "local" and c["l"].get("id") == lid \
                 and not _refs_local(c["r"], lid)
             body = wh["body"]
-            bs = body["stmts"] if body.get("k") == "block" and "e" not in body else None
+            bs = (body["stmts"] + ([{"k": "semi", "e": body["e"]}] if "e" in body else [])) if body.get("k") == "block" else None
             last = bs[-1]["e"] if bs and bs[-1]["k"] in ("expr", "semi") else None
             inc_ok = bool(last) and last.get("k") == "assignop" and last["op"].startswith("Add") and last["l"].get("k") == "path" and last["l"].get("id") == lid \
                 and last["r"].get("k") == "lit" and str(last["r"].get("v")).split("_")[0] == "1"
+            # descending form: `let mut i = N; while i > 0 { i -= 1; BODY }`  ==  `for i in (0..N).rev() { BODY }`
+            gt0 = c.get("k") == "bin" and c["op"] == "Gt" and c["l"].get("k") == "path" and c["l"].get("res") == "local" and c["l"].get("id") == lid \
+                and c["r"].get("k") == "lit" and str(c["r"].get("v")).split("_")[0] == "0"
+            first = bs[0]["e"] if bs and bs[0]["k"] in ("expr", "semi") else None
+            dec_ok = bool(first) and first.get("k") == "assignop" and first["op"].startswith("Sub") and first["l"].get("k") == "path" and first["l"].get("id") == lid \
+                and first["r"].get("k") == "lit" and str(first["r"].get("v")).split("_")[0] == "1"
+            if gt0 and dec_ok:
+                rest_body = {"k": "block", "stmts": bs[1:], "ln": body.get("ln"), "ty": "()"}
+                assigned = any(x.get("k") in ("assign", "assignop") and x["l"].get("k") == "path" and x["l"].get("id") == lid for x in walk(rest_body))
+                jumps = any(x.get("k") in ("break", "continue") for x in walk(rest_body))
+                live_after = any(_refs_local(s_.get("init") or s_.get("e") or {}, lid) for s_ in st[n + 2:]) or ("e" in b and _refs_local(b["e"], lid))
+                if not assigned and not jumps and not live_after:
+                    zero = {"k": "lit", "lk": "int", "v": "0", "ty": "usize", "ln": wh.get("ln")}
+                    rng = {"k": "struct", "res": "def", "dk": "Struct", "def": "std::ops::Range", "fields": [["start", zero], ["end", a["init"]]], "ln": wh.get("ln"),
+                           "ty": "std::ops::Range<usize>"}
+                    it = {"k": "mcall", "m": "rev", "recv": rng, "args": [], "ln": wh.get("ln"), "ty": "std::iter::Rev<std::ops::Range<usize>>",
+                          "callee": "std::iter::Iterator::rev"}
+                    st[n:n + 2] = [{"k": "semi", "e": {"k": "for", "pat": dict(a["pat"]), "iter": it, "body": rest_body, "ln": wh.get("ln"), "ty": "()",
+                                                        "counted_while_dec_ln": first.get("ln")}}]
+                    continue
             if cond_ok and inc_ok:
                 rest_body = {"k": "block", "stmts": bs[:-1], "ln": body.get("ln"), "ty": "()"}
                 assigned = any(x.get("k") in ("assign", "assignop") and x["l"].get("k") == "path" and x["l"].get("id") == lid for x in walk(rest_body))
